@@ -363,7 +363,7 @@ theorem m_entry_ok {S : Schema} (hG : GroupScanOK S) {mi : Nat} {f kf vf : Field
   -- pwf of the value as a value of field `vf`
   have hpwv : pwfFVal S vf (.one value) = true := by
     rw [pwfMsg] at hpw
-    obtain ⟨f', hf', hh⟩ := pwfFields_get hpw (n := 2) (fv := .one value) (by simp [Fields.get?_cons, Fields.get?_nil])
+    obtain ⟨f', hf', hh⟩ := pwfFields_get hpw (n := 2) (fv := .one value) (by simp [Fields.get?_cons])
     rw [hv] at hf'
     cases hf'
     exact hh
@@ -371,9 +371,7 @@ theorem m_entry_ok {S : Schema} (hG : GroupScanOK S) {mi : Nat} {f kf vf : Field
   have hent : ∀ fuel, (encVal S kf key ++ encVal S vf value).length + 2 ≤ fuel →
       decEntry fuel S kf vf none (if vf.kind.isMessage then some (.msg Msg.empty) else none)
         (encVal S kf key ++ encVal S vf value) (depth - 1) false =
-        .ok (some key, some (match value with
-                             | .msg sub => .msg (mergeMsg S vf.sub Msg.empty sub)
-                             | v => v)) := by
+        .ok (some key, some (cloneVal S vf value)) := by
     rw [encVal_scalar S kf hks, hkn, List.append_assoc]
     apply EntOK_key hks
     by_cases hm : vf.kind.isMessage = true
@@ -391,7 +389,7 @@ theorem m_entry_ok {S : Schema} (hG : GroupScanOK S) {mi : Nat} {f kf vf : Field
             (mergeMsg S vf.sub Msg.empty sub) :=
           IH sub rfl vf.sub g' (depth - 1 - 1) Msg.empty hg' hsubwf (pwfVal_msg hpwv.1)
             (by simp only [depthVal] at hdepth; omega)
-        rw [henc, hvn]
+        rw [henc, hvn, cloneVal]
         have hd2 : ¬ depth - 1 - 1 < 0 := by simp only [depthVal] at hdepth; omega
         have := EntOK_val_msg (kf := kf) (k := some key) (rest := []) (dis := false) hwt hm (hsub [])
           (hvn ▸ hcons []) hdec hlen hd2 (EntOK_nil S kf vf (depth - 1) false _ _)
@@ -402,25 +400,21 @@ theorem m_entry_ok {S : Schema} (hG : GroupScanOK S) {mi : Nat} {f kf vf : Field
       rw [encVal_scalar S vf hs, hvn]
       have := EntOK_val_scalar (kf := kf) (k := some key) (v := none) (rest := []) (dis := false) hs
         (EntOK_nil S kf vf (depth - 1) false _ _)
-      have hval : (match value with
-                   | .msg sub => Val.msg (mergeMsg S vf.sub Msg.empty sub)
-                   | v => v) = value := by
+      have hval : cloneVal S vf value = value := by
         cases value with
         | msg m => simp [wfScalar] at hs
-        | num n => rfl
-        | bytes b => rfl
+        | num n => rw [cloneVal]; intro m hh; cases hh
+        | bytes b => rw [cloneVal]; intro m hh; cases hh
       rw [hval]
       simpa only [List.append_nil] using this
   -- the stored entry is the deep copy of the source entry
   have hclone : clone S f.sub (.mk (.cons 1 (.one key) (.cons 2 (.one value) .nil)) []) =
-      .mk (.cons 1 (.one key) (.cons 2 (.one (match value with
-                                               | .msg sub => .msg (mergeMsg S vf.sub Msg.empty sub)
-                                               | v => v)) .nil)) [] := by
+      .mk (.cons 1 (.one key) (.cons 2 (.one (cloneVal S vf value)) .nil)) [] := by
     rw [clone_entry hk hv hpw hkey]
     cases value with
-    | msg sub => rfl
-    | num n => rfl
-    | bytes b => rfl
+    | msg sub => rw [cloneFVal, cloneVal]; rfl
+    | num n => rw [cloneFVal, cloneVal] <;> (intro m hh; cases hh)
+    | bytes b => rw [cloneFVal, cloneVal] <;> (intro m hh; cases hh)
   rw [hclone] at hrest
   generalize encVal S kf key ++ encVal S vf value = B at hent hlenb hbody
   have henc : encVal S f (.msg (.mk (.cons 1 (.one key) (.cons 2 (.one value) .nil)) [])) =
@@ -440,5 +434,171 @@ theorem m_entry_ok {S : Schema} (hG : GroupScanOK S) {mi : Nat} {f kf vf : Field
         (hent fu (by omega))]
       rfl
   · rw [List.append_assoc, consumeFieldValue_bytes, decBytes_enc' hlenb]; simp [Except.map]
+
+/-- a map field: all entries (at least one) -/
+theorem m_entries_ok {S : Schema} (hG : GroupScanOK S) {mi : Nat} {f kf vf : Field} {depth : Int}
+    (hfind : (S.msg mi).find f.num = some f) (h1 : 1 ≤ f.num) (h2 : f.num ≤ maxValidNumber)
+    (hc : f.card = .map) (hkg : f.kind ≠ .group)
+    (hk : (S.msg f.sub).find 1 = some kf) (hv : (S.msg f.sub).find 2 = some vf)
+    {u rest : List Byte} {R : Msg} :
+    ∀ (tl : Vals) (v : Val) (X : Fields), cwfEntries S f kf vf (.cons v tl) = true →
+      pwfEntries S f.sub (.cons v tl) = true →
+      (depthVals (.cons v tl) : Int) ≤ depth →
+      (∀ sub, sizeOf sub < sizeOf (Vals.cons v tl) → MergeRound S sub) →
+      DecOK S mi depth false
+        (.mk (X.set f.num (.many (mergeMapVals S f.sub (X.listAt f.num) (.cons v tl)))) u) rest R →
+      DecOK S mi depth false (.mk X u) (encVals S f (.cons v tl) ++ rest) R
+  | tl, v, X, hwf, hpw, hd, IH, hrest => by
+    simp only [cwfEntries, Bool.and_eq_true] at hwf
+    obtain ⟨⟨hwe, _⟩, hwt⟩ := hwf
+    obtain ⟨key, value, hveq, hks, hvs, hsz⟩ := cwfEntry_inv hwe
+    subst hveq
+    obtain ⟨e', k', he', hk', _, _, hpwe, hpwtl⟩ := pwfEntries_cons_msg hpw
+    cases he'
+    have hek : entryKey (.mk (.cons 1 (.one key) (.cons 2 (.one value) .nil)) []) = some key := by
+      simp [entryKey, Fields.get?]
+    simp only [depthVals] at hd
+    rw [mergeMapVals_cons_msg S f.sub _ _ tl key hek] at hrest
+    simp only [encVals, List.append_assoc]
+    apply m_entry_ok hG hfind h1 h2 hc hkg hk hv hks hvs hsz hpwe (by omega)
+    · intro sub hv'; subst hv'; apply IH; simp; omega
+    · cases tl with
+      | nil =>
+        rw [mergeMapVals] at hrest
+        simpa [encVals] using hrest
+      | cons v2 tl2 =>
+        apply m_entries_ok hG hfind h1 h2 hc hkg hk hv tl2 v2 _ hwt hpwtl (by omega)
+        · intro sub hs; apply IH; simp at hs ⊢; omega
+        · rw [Fields.listAt_set, Fields.set_set]
+          exact hrest
+termination_by tl => sizeOf tl
+
+/-- all records of one field -/
+theorem m_fval_ok {S : Schema} (hG : GroupScanOK S) {mi : Nat} {f : Field} {g depth : Int}
+    (hfind : (S.msg mi).find f.num = some f) (h1 : 1 ≤ f.num) (h2 : f.num ≤ maxValidNumber)
+    (hg : g ≤ defaultRecursionLimit)
+    {acc : Fields} {u rest : List Byte} {R : Msg}
+    {fv : FVal} (hwf : cwfFVal S g f fv = true) (hpw : pwfFVal S f fv = true)
+    (hdepth : (depthFVal fv : Int) ≤ depth)
+    (IH : ∀ sub, sizeOf sub < sizeOf fv → MergeRound S sub)
+    (hrest : DecOK S mi depth false (.mk (mergeFVal S (S.msg mi) f acc fv) u) rest R) :
+    DecOK S mi depth false (.mk acc u) (encFVal S f fv ++ rest) R := by
+  cases fv with
+  | one v =>
+    simp only [cwfFVal, Bool.and_eq_true, bne_iff_ne, ne_eq, Bool.not_eq_true'] at hwf
+    obtain ⟨⟨⟨hc1, hc2⟩, hv⟩, _⟩ := hwf
+    rw [pwfFVal, Bool.and_eq_true] at hpw
+    simp only [encFVal]
+    simp only [depthFVal] at hdepth
+    apply m_one_ok hG hfind h1 h2 hg hc1 hc2 hv hpw.1 hdepth
+    · intro sub hs; subst hs; apply IH; simp; omega
+    · exact hrest
+  | many vs =>
+    simp only [cwfFVal, Bool.and_eq_true, Bool.not_eq_true'] at hwf
+    obtain ⟨hne, hwf⟩ := hwf
+    rw [pwfFVal, Bool.and_eq_true] at hpw
+    simp only [depthFVal] at hdepth
+    have hIH : ∀ sub, sizeOf sub < sizeOf vs → MergeRound S sub := by
+      intro sub hs; apply IH; simp; omega
+    cases hc : f.card with
+    | optional => simp [hc] at hwf
+    | implicit => simp [hc] at hwf
+    | required => simp [hc] at hwf
+    | repeated =>
+      simp only [hc, Bool.and_eq_true] at hwf
+      obtain ⟨hvs, hpk⟩ := hwf
+      have hcm : f.card ≠ .map := by rw [hc]; decide
+      have hpvs : pwfVals S f vs = true := by
+        have := hpw.2
+        simpa only [hcm, if_false] using this
+      rw [mergeFVal_many_list S _ f acc vs hcm] at hrest
+      simp only [encFVal, hne, Bool.not_false, Bool.and_true]
+      by_cases hp : (f.packed && f.kind.isNumeric) = true
+      · simp only [hp, if_true] at ⊢
+        simp only [Bool.and_eq_true] at hp
+        simp only [hp, and_self, if_true, decide_eq_true_eq] at hpk
+        exact m_packed_ok hfind h1 h2 hc hp.2 hvs hpk hrest
+      · simp only [hp]
+        exact m_vals_ok hG hfind h1 h2 hg hc vs acc hvs hpvs hdepth hIH hrest
+    | map =>
+      simp only [hc, Bool.and_eq_true, beq_iff_eq] at hwf
+      obtain ⟨hkm, hwf⟩ := hwf
+      have hkg : f.kind ≠ .group := by rw [hkm]; decide
+      have hpvs : pwfEntries S f.sub vs = true := by
+        have := hpw.2
+        simpa only [hc, if_true] using this
+      split at hwf
+      · rename_i kf vf hk hv
+        have hpk : (f.packed && f.kind.isNumeric && !vs.isNil) = false := by
+          simp [hkm, Kind.isNumeric]
+        simp only [encFVal, hpk, Bool.false_eq_true, if_false]
+        cases vs with
+        | nil => simp [Vals.isNil] at hne
+        | cons v tl =>
+          apply m_entries_ok hG hfind h1 h2 hc hkg hk hv tl v acc hwf hpvs hdepth hIH
+          rw [mergeFVal_many_map S _ f acc _ hc] at hrest
+          obtain ⟨e, k, rfl, hke, _, _, _, _⟩ := pwfEntries_cons_msg hpvs
+          have hnn : (mergeMapVals S f.sub (acc.listAt f.num) (.cons (.msg e) tl)).isNil = false := by
+            rw [mergeMapVals_cons_msg S _ _ e tl k hke]
+            exact mergeMapVals_not_nil S _ tl _ (mapPut_not_nil _ _ _)
+          simpa only [hnn, Bool.false_eq_true, if_false] using hrest
+      · simp at hwf
+
+/-- the record loop over a field list, merging into any accumulator -/
+theorem m_fields_ok {S : Schema} (hG : GroupScanOK S) {mi : Nat} {g depth : Int}
+    (hg : g ≤ defaultRecursionLimit) {u rest : List Byte} {R : Msg} :
+    ∀ (fs : Fields) (lb : Nat) (acc : Fields), 1 ≤ lb → cwfFields S (S.msg mi) g lb fs = true →
+      pwfFields S (S.msg mi) fs = true →
+      (depthFields fs : Int) ≤ depth →
+      (∀ sub, sizeOf sub < sizeOf fs → MergeRound S sub) →
+      DecOK S mi depth false (.mk (mergeFields S (S.msg mi) acc fs) u) rest R →
+      DecOK S mi depth false (.mk acc u) (encFields S (S.msg mi) fs ++ rest) R
+  | .nil, lb, acc, _, _, _, _, _, hrest => by
+    rw [mergeFields_nil] at hrest
+    simpa [encFields] using hrest
+  | .cons num fv tl, lb, acc, hlb, hwf, hpw, hd, IH, hrest => by
+    simp only [cwfFields, Bool.and_eq_true, decide_eq_true_eq] at hwf
+    obtain ⟨⟨⟨hl, hmax⟩, hf⟩, htl⟩ := hwf
+    rw [pwfFields, Bool.and_eq_true, Bool.and_eq_true, Bool.and_eq_true] at hpw
+    cases hfind : (S.msg mi).find num with
+    | none => simp [hfind] at hf
+    | some f =>
+      simp only [hfind, Bool.and_eq_true] at hf
+      obtain ⟨hfv, _⟩ := hf
+      have hpfv : pwfFVal S f fv = true := by
+        have := hpw.1.1.1
+        rw [hfind] at this
+        exact this
+      have hn := MsgD.find_num_eq hfind
+      subst hn
+      simp only [depthFields] at hd
+      simp only [encFields, hfind, List.append_assoc]
+      rw [mergeFields_cons, mergeField] at hrest
+      simp only [hfind] at hrest
+      apply m_fval_ok hG hfind (by omega) hmax hg hfv hpfv (by omega)
+      · intro sub hs; apply IH; simp; omega
+      · apply m_fields_ok hG hg tl (f.num + 1) _ (by omega) htl hpw.2 (by omega)
+        · intro sub hs; apply IH; simp; omega
+        · exact hrest
+
+/-- **merge = decode ∘ encode for every source message and every destination** -/
+theorem mergeRound_all {S : Schema} (hG : GroupScanOK S) : ∀ (n : Nat) (b : Msg), sizeOf b ≤ n → MergeRound S b
+  | 0, b, h => by cases b; simp at h
+  | n + 1, .mk fs unk, h => by
+    intro mi g depth a hg hwf hpw hd
+    cases a with
+    | mk dfs du =>
+      simp only [cwfMsg, Bool.and_eq_true] at hwf
+      rw [pwfMsg] at hpw
+      simp only [depthMsg] at hd
+      rw [mergeMsg_mk]
+      simp only [encMsg]
+      apply m_fields_ok hG hg fs 1 dfs (Nat.le_refl _) hwf.1 hpw (by omega)
+      · intro sub hs; apply mergeRound_all hG n; simp at h; omega
+      · have := unk_loop S mi depth false g hg _ unk (mergeFields S (S.msg mi) dfs fs) du hwf.2
+        simpa using this
+
+theorem mergeRound (S : Schema) (b : Msg) : MergeRound S b :=
+  mergeRound_all (groupScanOK S) (sizeOf b) b (Nat.le_refl _)
 
 end Pb
